@@ -217,6 +217,10 @@ class Model:
         decos = _decorator_names(node)
         if parent is not None:
             kind, qual = "function", f"{parent.qualname}.<locals>.{node.name}"
+            k = 2
+            while qual in mi.functions:      # the same local name defined in several branches
+                qual = f"{parent.qualname}.<locals>.{node.name}#{k}"
+                k += 1
         elif ci is None:
             kind, qual = "function", node.name
         else:
@@ -347,6 +351,82 @@ class Model:
                     return self.global_constant(m2, tail, _depth + 1)
         return None
 
+    # ---------------------------------------------------------------- purity
+    PURE_BUILTINS = {"len", "min", "max", "abs", "float", "int", "str", "bool", "sum", "sorted", "list", "tuple", "dict", "set",
+                     "range", "enumerate", "zip", "map", "filter", "isinstance", "round", "any", "all", "reversed", "frozenset",
+                     "type", "hasattr", "getattr", "repr", "divmod", "pow", "deque", "combinations", "iter", "next", "vars",
+                     "astuple"}
+    PURE_METHODS = {"items", "values", "keys", "get", "index", "count", "copy", "split", "rsplit", "strip", "rstrip", "lstrip",
+                    "format", "join", "find", "startswith", "endswith", "lower", "upper", "isupper", "intersection", "union",
+                    "difference", "norm", "tostr", "read", "getvalue"}
+
+    def pure_functions(self) -> set:
+        """repo functions without effects on parameters, self or module-level state (via the effects engine)"""
+        if getattr(self, "_pure", None) is None:
+            from .effects import Effects
+            eff = Effects(self)
+            pure = set()
+            for f in self.all_functions():
+                if eff.summary.get(f):
+                    continue
+                params = {a.arg for a in f.node.args.posonlyargs + f.node.args.args + f.node.args.kwonlyargs}
+                local_names = set(params)
+                for n in walk_own(f.node):
+                    if isinstance(n, ast.Name) and isinstance(n.ctx, ast.Store):
+                        local_names.add(n.id)
+                bad = False
+                for n in walk_own(f.node):
+                    if isinstance(n, (ast.Global, ast.Nonlocal)):
+                        bad = True
+                    if isinstance(n, (ast.Attribute, ast.Subscript)) and isinstance(n.ctx, (ast.Store, ast.Del)):
+                        r = n.value
+                        while isinstance(r, (ast.Attribute, ast.Subscript)):
+                            r = r.value
+                        if isinstance(r, ast.Name) and r.id not in local_names:
+                            bad = True
+                    if isinstance(n, ast.Call) and isinstance(n.func, ast.Attribute) and n.func.attr in _MUTATORS:
+                        r = n.func.value
+                        while isinstance(r, (ast.Attribute, ast.Subscript)):
+                            r = r.value
+                        if isinstance(r, ast.Name) and r.id not in local_names:
+                            bad = True
+                if not bad:
+                    pure.add(f)
+            # a function calling an impure repo function is impure
+            changed = True
+            cg = self.callgraph()
+            while changed:
+                changed = False
+                for f in list(pure):
+                    for g in cg.get(f, ()):
+                        if g not in pure and g.kind != "property":
+                            pure.discard(f)
+                            changed = True
+                            break
+            self._pure = pure
+        return self._pure
+
+    def call_is_pure(self, fi: FuncInfo, call: ast.Call) -> bool:
+        f = call.func
+        if isinstance(f, ast.Name):
+            if f.id in self.PURE_BUILTINS:
+                return True
+            t = self.resolve_name(fi.module, f.id)
+            if isinstance(t, ClassInfo):
+                return t.is_dataclass or t.name in ("Point",)
+        if isinstance(f, ast.Attribute):
+            if isinstance(f.value, ast.Name) and f.value.id in ("math", "np", "numpy") and f.attr not in ("random",):
+                return True
+            if f.attr in _MUTATORS or f.attr in ("heappop", "heappush", "heapify"):
+                return False
+        callees = self.resolve_call(fi, call)
+        if callees:
+            pure = self.pure_functions()
+            return all(c in pure for c in callees)
+        if isinstance(f, ast.Attribute) and f.attr in self.PURE_METHODS:
+            return True
+        return False
+
     # ------------------------------------------------------------ call graph
     def resolve_call(self, fi: FuncInfo, call: ast.Call, local_types: Optional[dict[str, str]] = None) -> list[FuncInfo]:
         """Callees of a call expression inside ``fi`` (possibly several when the
@@ -462,6 +542,9 @@ class Model:
         return {"modules": len(self.modules), "functions": nfun,
                 "classes": sum(len(m.classes) for m in self.modules.values())}
 
+
+_MUTATORS = {"append", "extend", "insert", "pop", "popleft", "appendleft", "remove", "sort", "clear", "update", "add",
+             "setdefault", "discard", "reverse"}
 
 _GENERIC_METHOD_NAMES = {
     "append", "extend", "insert", "pop", "remove", "sort", "clear", "update", "add", "setdefault", "get", "items",
